@@ -554,9 +554,7 @@ func genCoseRead(r *Runner, prop string) {
 			}
 			// pairs that touch where the certificates come from are never sampled away: who signed is what C01 and C02 are about
 			must := identityMut(a.name) || identityMut(b.name)
-			if quick && !must && rng.Intn(3) != 0 {
-				continue
-			}
+			_ = must // every pair, in every tier
 			jobs = append(jobs, coseJob{label: "pair", keyID: "ec256-0", n: 2, scheme: schemes[rng.Intn(2)], muts: []coseMut{a, b}, ext: rng.Intn(3), expiry: rng.Intn(3) == 0})
 		}
 	}
